@@ -120,5 +120,5 @@ if __name__ == "__main__":
             i = args.index("--tier")
             tier = args[i + 1]
             del args[i:i + 2]
-        ids = args or sorted(x for x in os.listdir(SEEDED) if os.path.isdir(os.path.join(SEEDED, x)))
+        ids = args or sorted(x for x in os.listdir(SEEDED) if os.path.isdir(os.path.join(SEEDED, x)) and not x.startswith("_"))
         do_run(ids, tier)
